@@ -1,68 +1,69 @@
-    .section cs_ro0,"aM",@progbits,1
-    .balign 8
+    .section .cs_bss0,"aw",@nobits
+    .balign 4
     .globl sym0
 sym0:
-    .fill 8,1,30
-    .size sym0, 8
-    .section .data.rel.ro.x1,"aw",@progbits
-    .balign 64
+    .zero 1000
+    .size sym0, 1000
+    .section .rodata.x1,"aM",@progbits,1
+    .balign 512
     .globl sym1
 sym1:
-    .fill 100,1,200
-    .size sym1, 100
-    .section .bss,"aw",@nobits
-    .balign 2
+    .fill 1,1,128
+    .size sym1, 1
+    .section cs_data2,"aw",@progbits
+    .balign 32
     .globl sym2
 sym2:
-    .zero 1000
-    .size sym2, 1000
+    .fill 100,1,146
+    .size sym2, 100
     .section cs_data3,"aw",@progbits
-    .balign 8192
+    .balign 64
     .globl sym3
 sym3:
-    .fill 8,1,224
-    .size sym3, 8
+    .fill 100,1,162
+    .size sym3, 100
     .text
     .globl _start
 _start:
     movabs $sym0, %rsi
-    test $7, %rsi
+    test $3, %rsi
     jnz fail0
     movzbl 0(%rsi), %eax
-    cmp $30, %eax
-    jne fail0
-    movzbl 7(%rsi), %eax
-    cmp $30, %eax
-    jne fail0
-    movabs $sym1, %rsi
-    test $63, %rsi
-    jnz fail1
-    movzbl 0(%rsi), %eax
-    cmp $200, %eax
-    jne fail1
-    movzbl 99(%rsi), %eax
-    cmp $200, %eax
-    jne fail1
-    movabs $sym2, %rsi
-    test $1, %rsi
-    jnz fail2
-    movzbl 0(%rsi), %eax
     cmp $0, %eax
-    jne fail2
+    jne fail0
     movzbl 999(%rsi), %eax
     cmp $0, %eax
-    jne fail2
+    jne fail0
     movb $0x5a, (%rsi)
     movb $0x5a, 999(%rsi)
-    movabs $sym3, %rsi
+    movabs $sym1, %rsi
+    test $511, %rsi
+    jnz fail1
     movzbl 0(%rsi), %eax
-    cmp $224, %eax
+    cmp $128, %eax
+    jne fail1
+    movabs $sym2, %rsi
+    test $31, %rsi
+    jnz fail2
+    movzbl 0(%rsi), %eax
+    cmp $146, %eax
+    jne fail2
+    movzbl 99(%rsi), %eax
+    cmp $146, %eax
+    jne fail2
+    movb $0x5a, (%rsi)
+    movb $0x5a, 99(%rsi)
+    movabs $sym3, %rsi
+    test $63, %rsi
+    jnz fail3
+    movzbl 0(%rsi), %eax
+    cmp $162, %eax
     jne fail3
-    movzbl 7(%rsi), %eax
-    cmp $224, %eax
+    movzbl 99(%rsi), %eax
+    cmp $162, %eax
     jne fail3
     movb $0x5a, (%rsi)
-    movb $0x5a, 7(%rsi)
+    movb $0x5a, 99(%rsi)
     mov $60, %eax
     xor %edi, %edi
     syscall
